@@ -7,12 +7,14 @@ import (
 	"math/rand"
 	"net"
 	"net/http"
+	"net/url"
 	"sort"
 	"strconv"
 	"strings"
 	"sync"
 	"time"
 
+	"github.com/andydunstall/piko/client"
 	"github.com/andydunstall/piko/pkg/auth"
 	"github.com/andydunstall/piko/server/config"
 	"github.com/andydunstall/piko/server/upstream"
@@ -92,9 +94,11 @@ type lifeSim struct {
 	out      []*Step
 	slowStop bool
 	stopped  bool
+	// tunnelStop: a tunnelled connection through the node is open when it stops
+	tunnelStop bool
 }
 
-func newLifeSim(connE1, connE2, expConn []string, slowStop bool) (*lifeSim, error) {
+func newLifeSim(connE1, connE2, expConn []string, slowStop, tunnelStop bool) (*lifeSim, error) {
 	// threshold 0: the periodic rebalancer is not started; Rebalance() is called by the scenario.
 	// The upstream port is authenticated: some listeners present a token with an expiry (an hour away).
 	n, err := psim.StartNode(psim.NodeOpts{ID: "a", UpstreamAuth: &auth.Config{HMACSecretKey: "secret"}, GracePeriod: 600 * time.Millisecond,
@@ -107,7 +111,7 @@ func newLifeSim(connE1, connE2, expConn []string, slowStop bool) (*lifeSim, erro
 		n.Stop()
 		return nil, err
 	}
-	s := &lifeSim{n: n, peer: peer, ls: map[string]*lsn{}, exp: map[string]bool{}, slowStop: slowStop}
+	s := &lifeSim{n: n, peer: peer, ls: map[string]*lsn{}, exp: map[string]bool{}, slowStop: slowStop, tunnelStop: tunnelStop}
 	for _, c := range expConn {
 		s.exp[c] = true
 	}
@@ -159,6 +163,9 @@ func (s *lifeSim) plausible(o *Step) bool {
 	if o.Sess != na {
 		return false
 	}
+	if s.stopped && s.openConns() != 0 {
+		return false
+	}
 	for _, e := range []string{"e1", "e2"} {
 		r := cntOf(o.Reg, e)
 		if r < open[e] || r > alive[e] || cntOf(o.Adv, e) != r || cntOf(o.Gos, e) != r {
@@ -178,6 +185,7 @@ func (s *lifeSim) observe(st *Step) {
 		observeLife(s.n, cur)
 		if prev != nil && sameObs(prev, cur) && (s.plausible(cur) || time.Now().After(deadline)) {
 			st.Reg, st.Sess, st.Adv, st.Gos = cur.Reg, cur.Sess, cur.Adv, cur.Gos
+			st.Conns = s.openConns()
 			break
 		}
 		prev = cur
@@ -186,6 +194,17 @@ func (s *lifeSim) observe(st *Step) {
 	b, _ := json.Marshal([]interface{}{st.Ev, st.C, st.E})
 	st.Cmd = string(b)
 	s.out = append(s.out, st)
+}
+
+// openConns: the listeners' network connections to the node (through their relays) that are still open.
+func (s *lifeSim) openConns() int {
+	t := 0
+	for _, l := range s.ls {
+		if l.rel != nil {
+			t += l.rel.Open()
+		}
+	}
+	return t
 }
 
 func (s *lifeSim) accepted() int64 {
@@ -364,6 +383,25 @@ func (s *lifeSim) do(cmd []interface{}) error {
 				time.Sleep(20 * time.Millisecond)
 			}
 		}
+		if s.tunnelStop {
+			// a tunnelled connection to a connected listener is open (and idle) when the node stops: the stop
+			// still closes the listener's session
+			var es []string
+			for _, id := range s.ids {
+				if l := s.ls[id]; l.st == "connected" {
+					es = append(es, l.e)
+				}
+			}
+			if len(es) > 0 {
+				d := &client.Dialer{URL: &url.URL{Scheme: "http", Host: s.n.ProxyAddr()}}
+				ctx, cancel := context.WithTimeout(context.Background(), 2*time.Second)
+				if tc, err := d.Dial(ctx, es[0]); err == nil {
+					defer tc.Close()
+					time.Sleep(20 * time.Millisecond)
+				}
+				cancel()
+			}
+		}
 		s.n.Stop()
 		s.stopped = true
 		s.observe(&Step{Ev: "stop"})
@@ -393,8 +431,8 @@ func (s *lifeSim) randomCmd(rng *rand.Rand) []interface{} {
 }
 
 // runLife: one scenario (a command list from the model's state graph, or a seeded random one).
-func runLife(connE1, connE2, expConn []string, cmds [][]interface{}, rng *rand.Rand, depth int, slowStop bool) ([]*Step, error) {
-	s, err := newLifeSim(connE1, connE2, expConn, slowStop)
+func runLife(connE1, connE2, expConn []string, cmds [][]interface{}, rng *rand.Rand, depth int, slowStop, tunnelStop bool) ([]*Step, error) {
+	s, err := newLifeSim(connE1, connE2, expConn, slowStop, tunnelStop)
 	if err != nil {
 		return nil, err
 	}
@@ -462,7 +500,7 @@ func runC16(sf *sched, seed int64, emit emitter) error {
 			if jobs[i].rng != nil {
 				depth = 10 + jobs[i].rng.Intn(10)
 			}
-			results[i], errs[i] = runLife(sf.ConnE1, sf.ConnE2, sf.ExpConn, jobs[i].cmds, jobs[i].rng, depth, i%3 == 0)
+			results[i], errs[i] = runLife(sf.ConnE1, sf.ConnE2, sf.ExpConn, jobs[i].cmds, jobs[i].rng, depth, i%3 == 0, i%3 == 1)
 		}(i)
 	}
 	wg.Wait()
